@@ -78,6 +78,7 @@ ObservedHandle(o) ==
        /\ Chk("ticket", ticket'.seq = o.ticket.seq /\ ticket'.cap = o.ticket.cap)
        /\ Chk("capacity", o.stats.cap = Capacity')
        /\ Chk("stats.count", o.stats.frame_count = o.count)
+       /\ Chk("frame.blob", (o.full /\ Has(o, "blob_interleaved_ok")) => o.blob_interleaved_ok)   \* C07: concurrent blob readers
        /\ Chk("ro.file", o.ro => o.ro_unchanged)       \* C18: a read-only handle never changes the file
 
 Observed(o) ==
@@ -125,21 +126,25 @@ Emb(a) == IF Has(a, "emb") THEN a.emb ELSE 0
 MetaOf(a) == [fld \in MetaFields |-> IF Has(a, "meta") /\ Has(a.meta, fld) THEN a.meta[fld] ELSE 0]
 CEmbs(a) == IF Has(a, "chunk_embs") THEN a.chunk_embs ELSE <<>>
 Role(a) == IF Has(a, "role") THEN a.role ELSE "doc"
-SLen(a) == IF Has(a, "cls") /\ a.cls = "bin" THEN (IF a.size < 4 THEN 4 ELSE a.size)
-           ELSE IF Has(a, "cls") /\ a.cls = "zero" THEN (IF a.size < 10 THEN 10 ELSE a.size) ELSE 0
+\* bytes the payload occupies in the file (computed by the harness: verbatim, or zstd for UTF-8): what capacity charges
+SLen(a) == IF Has(Ev.x, "stored_len") THEN Ev.x.stored_len ELSE 0
 
 TPut == /\ IsEvent("put")
         /\ LET a == Ev.args  n == Ev.x.nchunks  nl == NewLens IN
            IF ResOk
-             THEN /\ PutM(a.uri, Role(a), a.ts, a.pay * 1000, Emb(a), n, CEmbs(a), SLen(a),
-                          First(nl, 1 + n), NthOrZero(nl, 2 + n), PayEnd(Ev.obs), MetaOf(a))
+             THEN /\ Chk("capacity.accepted", ~Over(SLen(a)))            \* C24: a put that does not fit must be rejected
+                  /\ PutDo(a.uri, Role(a), a.ts, a.pay * 1000, Emb(a), n, CEmbs(a), SLen(a),
+                           First(nl, 1 + n), NthOrZero(nl, 2 + n), PayEnd(Ev.obs), MetaOf(a))
                   /\ last'.res = "ok" /\ Chk("put.seq", Ev.res.val = last'.val)
                   /\ Chk("put.nfid", Ev.nfid_before = Len(frames) + pins)   \* C06: next_frame_id() before the put
                   /\ (SLen(a) > 0 /\ cpe + PendingStored(pend) + SLen(a) > Capacity
                         => PrintT(<<"DEVIATION", l, "D24_pending_ignored">>))
-             ELSE /\ Put(a.uri, Role(a), a.ts, a.pay * 1000, Emb(a), n, CEmbs(a), SLen(a),
-                         [i \in 1..(1 + n) |-> 1], 0, cpe)
-                  /\ Matches
+             ELSE IF ResErr("CapacityExceeded")
+               THEN /\ Chk("capacity.rejected", Over(SLen(a)))            \* ... and only such a put
+                    /\ hdl = "rw" /\ Reject("put", "CapacityExceeded")
+               ELSE /\ PutM(a.uri, Role(a), a.ts, a.pay * 1000, Emb(a), n, CEmbs(a), 0,
+                            [i \in 1..(1 + n) |-> 1], 0, cpe, NoMeta)
+                    /\ Matches
         /\ Observed(Ev.obs)
 
 TUpdate == /\ IsEvent("update")
